@@ -27,6 +27,7 @@ def main():
     ap.add_argument("--tests", action="store_true")
     ap.add_argument("--seeds", default="0")
     ap.add_argument("--keep", action="store_true")
+    ap.add_argument("--base", default="HEAD", help="commit of /repo the patch applies to (when a later fix: commit touched the same lines)")
     a = ap.parse_args()
     sd = os.path.abspath(a.seed_dir)
     name = os.path.basename(sd.rstrip("/"))
@@ -35,7 +36,8 @@ def main():
     wt = tempfile.mkdtemp(prefix="mut_%s_" % name, dir="/var/tmp" if os.path.isdir("/var/tmp") else "/tmp")
     os.rmdir(wt)
     res = {"seed": name, "props": props, "tier": a.tier}
-    rc, out = sh("git -C /repo worktree add --detach %s HEAD" % wt)
+    res["base"] = a.base
+    rc, out = sh("git -C /repo worktree add --detach %s %s" % (wt, a.base))
     if rc:
         print(out); sys.exit(2)
     try:
